@@ -19,6 +19,8 @@ for sid in sorted(os.listdir(root), key=lambda x: (x.split('-')[0], int(x.split(
         if nl:
             kinds = sorted(set(re.findall(r'\[(\w[\w-]*)\]', ' '.join(nl))))
             caught += ' + ' + '/'.join(kinds) if res.get('failing_input_found') and kinds else ''
+    elif res and m.get('not_a_violation'):
+        caught = 'quiet — not a violation inside the quantifier: ' + m['not_a_violation'][:160]
     elif res:
         caught = f"MISSED (exit {res.get('exit')})"
     else:
